@@ -13,6 +13,7 @@ import (
 	"time"
 
 	eth2spec "github.com/attestantio/go-eth2-client/spec"
+	"github.com/attestantio/go-eth2-client/spec/altair"
 	eth2p0 "github.com/attestantio/go-eth2-client/spec/phase0"
 	"github.com/libp2p/go-msgio/pbio"
 	"google.golang.org/protobuf/proto"
@@ -74,6 +75,12 @@ func body(c *kernel.Ctx) {
 	beaconErrs := verifrt.Intn("cfg", 4) == 3
 
 	cl := cluster.New(ctx, c.T, cfg)
+	// a fork activates at the next epoch boundary: objects of slots beyond it are signed under another
+	// fork version (used by the Byzantine cross-fork partial signature)
+	syncMsgs := verifrt.Intn("cfg", 2) == 1
+	nextEpoch := eth2p0.Epoch(cfg.StartSlot/cfg.SlotsPerEpoch + 1)
+	cl.Chain.Forks = []simbeacon.Fork{{Epoch: nextEpoch, Version: eth2p0.Version{0x00, 0x00, 0x10, 0x21}}}
+	c.Set("sync_messages", syncMsgs)
 	viewOf := make([][]int, n)
 	for i := range viewOf {
 		viewOf[i] = make([]int, nSlots)
@@ -130,6 +137,7 @@ func body(c *kernel.Ctx) {
 	c.Set("views", views)
 
 	o := &oracle{c: c, cl: cl, roots: map[string][32]byte{}, first: map[string]cluster.Broadcast{}, firstSlot: firstSlot, nSlots: nSlots, views: views}
+	runSyncMsgs = syncMsgs
 	cl.OnBcast = o.onBroadcast
 
 	// ---- nodes: start (some late), trigger duties, run validator clients -------------------
@@ -228,6 +236,23 @@ func dutyAt(ctx context.Context, c *kernel.Ctx, cl *cluster.Cluster, i int, slot
 	if byz {
 		verifrt.Go(func() { byzantine(ctx, cl, i, slot) })
 	}
+	if runSyncMsgs {
+		// sync committee messages need no consensus: every validator client signs the head root of its
+		// own beacon view and submits it
+		for _, v := range cl.Vals {
+			v := v
+			verifrt.Go(func() {
+				verifrt.Sleep(time.Duration(verifrt.Intn("w", 400)) * time.Millisecond)
+				view := 0
+				if cl.View != nil {
+					view = cl.View(i, slot)
+				}
+				msg := syncMessage(cl, v, slot, slot, headRoot(slot, view), v.Shares[i+1])
+				err := n.VAPI.SubmitSyncCommitteeMessages(n.Ctx, []*altair.SyncCommitteeMessage{msg})
+				verifrt.Note("n%d vc sync-msg slot %d val %d view %d err=%v", i, slot, v.Index, view, err != nil)
+			})
+		}
+	}
 	// validator client: one request per validator, slow or absent in some runs
 	for _, v := range cl.Vals {
 		v := v
@@ -280,6 +305,25 @@ func byzantine(ctx context.Context, cl *cluster.Cluster, i int, slot uint64) {
 		}
 		own := v.Shares[i+1]
 		var msgs []*pbv1.ParSigExMsg
+		if runSyncMsgs && verifrt.Intn("a", 3) == 0 {
+			// a partial signature that is valid for its own slot and fork - a sync message for the same
+			// head root but a slot beyond the fork boundary - sent under the honest duty: it passes the
+			// per-partial check and has the same message root as the honest partials
+			other := (slot/cl.Cfg.SlotsPerEpoch+1)*cl.Cfg.SlotsPerEpoch + uint64(verifrt.Intn("a", 3))
+			m := syncMessage(cl, v, slot, other, headRoot(slot, verifrt.Intn("a", 3)), own)
+			set, err := core.ParSignedDataSetToProto(core.ParSignedDataSet{v.CorePK: core.NewPartialSignedSyncMessage(m, i+1)})
+			if err != nil {
+				panic(err)
+			}
+			x := &pbv1.ParSigExMsg{Duty: core.DutyToProto(core.NewSyncMessageDuty(slot)), DataSet: set}
+			for to := 0; to < cl.Cfg.N; to++ {
+				if to != i {
+					verifrt.Fault("byz:cross-fork-sync-partial")
+					cl.Net.Inject(cl.PeerIDs[i], cl.PeerIDs[to], protoParSigEx, frame(x), time.Duration(verifrt.Intn("a", 200))*time.Millisecond)
+				}
+			}
+			continue
+		}
 		switch verifrt.Intn("a", 5) {
 		case 0: // other data, own share
 			msgs = []*pbv1.ParSigExMsg{mk(view, own, i+1)}
@@ -307,6 +351,23 @@ func byzantine(ctx context.Context, cl *cluster.Cluster, i int, slot uint64) {
 	}
 }
 
+var runSyncMsgs bool
+
+func headRoot(slot uint64, view int) eth2p0.Root { return eth2p0.Root{0xb0, byte(slot), byte(view)} }
+
+// syncMessage builds a sync committee message for msgSlot over root, signed with key under the
+// domain of msgSlot's epoch (consensus spec: DOMAIN_SYNC_COMMITTEE, signing root of the block root).
+func syncMessage(cl *cluster.Cluster, v *cluster.Validator, _ uint64, msgSlot uint64, root eth2p0.Root, key tbls.PrivateKey) *altair.SyncCommitteeMessage {
+	epoch := eth2p0.Epoch(msgSlot / cl.Cfg.SlotsPerEpoch)
+	dom := simbeacon.ComputeDomain(simbeacon.DomainTypes["DOMAIN_SYNC_COMMITTEE"], cl.Chain.VersionAt(epoch), cl.Chain.GenesisValidatorsRoot)
+	sr := simbeacon.SigningRoot(root, dom)
+	sig, err := tbls.Sign(key, sr[:])
+	if err != nil {
+		panic(err)
+	}
+	return &altair.SyncCommitteeMessage{Slot: eth2p0.Slot(msgSlot), BeaconBlockRoot: root, ValidatorIndex: v.Index, Signature: eth2p0.BLSSignature(sig)}
+}
+
 // ---- oracles ----------------------------------------------------------------------------------
 
 type oracle struct {
@@ -323,9 +384,13 @@ type oracle struct {
 
 func (o *oracle) onBroadcast(b cluster.Broadcast) {
 	c, cl := o.c, o.cl
-	key := fmt.Sprintf("%s/%s", b.Duty, b.PubKey[:10])
+	key := fmt.Sprintf("%s/%s", b.Duty, string(b.PubKey)[:10])
 	verifrt.Note("broadcast n%d %s", b.Node, key)
 	c.Progress()
+	if sm, ok := b.Data.(core.SignedSyncMessage); ok {
+		o.onSyncMessage(b, key, sm)
+		return
+	}
 	att, ok := b.Data.(core.VersionedAttestation)
 	if !ok {
 		c.Violate("C01", "broadcast-type", "unexpected-signed-data-type", "node %d broadcast %T for %s", b.Node, b.Data, key)
@@ -387,12 +452,59 @@ func (o *oracle) onBroadcast(b cluster.Broadcast) {
 	_ = eth2spec.DataVersionDeneb
 }
 
+func (o *oracle) onSyncMessage(b cluster.Broadcast, key string, sm core.SignedSyncMessage) {
+	c, cl := o.c, o.cl
+	var val *cluster.Validator
+	for _, v := range cl.Vals {
+		if v.CorePK == b.PubKey {
+			val = v
+		}
+	}
+	if val == nil {
+		c.Violate("C01", "unknown-validator", "broadcast-for-validator-outside-cluster", "node %d broadcast for unknown validator %s", b.Node, b.PubKey)
+		return
+	}
+	// (i) valid under the group key for the object's own signing root, domain and epoch
+	epoch := eth2p0.Epoch(uint64(sm.Slot) / cl.Cfg.SlotsPerEpoch)
+	dom := simbeacon.ComputeDomain(simbeacon.DomainTypes["DOMAIN_SYNC_COMMITTEE"], cl.Chain.VersionAt(epoch), cl.Chain.GenesisValidatorsRoot)
+	sr := simbeacon.SigningRoot(sm.BeaconBlockRoot, dom)
+	if err := tbls.Verify(val.PubKey, sr[:], tbls.Signature(sm.SyncCommitteeMessage.Signature)); err != nil {
+		c.Violate("C01", "invalid-group-signature", "broadcast-signature-does-not-verify-under-group-key", "node %d broadcast sync message %s (slot %d) whose signature does not verify under the validator's group public key for its own signing root: %v", b.Node, key, sm.Slot, err)
+	}
+	// (ii) one signing root per (duty, validator)
+	o.mu.Lock()
+	if prev, ok := o.roots[key]; ok && prev != sr {
+		f := o.first[key]
+		o.mu.Unlock()
+		c.Violate("C01", "two-signing-roots", "different-signed-objects-for-one-duty-and-validator", "%s: node %d broadcast signing root %x at %v but node %d broadcast %x at %v", key, f.Node, prev[:6], f.At, b.Node, sr[:6], b.At)
+		o.mu.Lock()
+	} else if !ok {
+		o.roots[key] = sr
+		o.first[key] = b
+	}
+	o.mu.Unlock()
+	// (iii) content is what some honest node's validator client signed: the duty's slot and a served head root
+	okRoot := false
+	for view := 0; view < o.views; view++ {
+		if sm.BeaconBlockRoot == headRoot(b.Duty.Slot, view) {
+			okRoot = true
+		}
+	}
+	if uint64(sm.Slot) != b.Duty.Slot || !okRoot {
+		c.Violate("C01", "validity", "signed-content-never-signed-by-an-honest-validator-client", "%s: node %d broadcast a sync message for slot %d root %x which no honest validator client signed for this duty", key, b.Node, sm.Slot, sm.BeaconBlockRoot[:3])
+	}
+}
+
 func (o *oracle) final() {
 	o.mu.Lock()
 	defer o.mu.Unlock()
 	o.c.Set("duty_validator_pairs_completed", len(o.roots))
-	o.c.Set("pairs_total", o.nSlots*len(o.cl.Vals))
-	if len(o.roots) == o.nSlots*len(o.cl.Vals) {
+	total := o.nSlots * len(o.cl.Vals)
+	if runSyncMsgs {
+		total *= 2
+	}
+	o.c.Set("pairs_total", total)
+	if len(o.roots) == total {
 		verifrt.Probe("all-duties-completed")
 	}
 }
